@@ -5,7 +5,7 @@ from .. import gen, harness, mon, ref, runfam
 from ..core import Check, derive_seed
 from ..model import Expr, In, Ref, Not, Program, Step, OneOf, Opt, OrDisabled, walk_tree
 
-OUTCOMES = ["success", "error", "crash", "deployfail", "disabled", "alt", "never-enabled"]
+OUTCOMES = ["success", "error", "crash", "deployfail", "disabled", "alt", "never-enabled", "late-enabled"]
 NO_EXEC = ("deployfail", "disabled", "never-enabled")
 
 
@@ -34,8 +34,12 @@ def tagged2(t):
 
 def build(i, check):
     rng = random.Random(derive_seed(check.seed, "c15", i))
-    kind = ["wait-optional", "soft-optional", "soft-optional-never-ending", "oneof", "ordisabled", "mixed", "wait-optional-in-oneof"][i % 7]
+    kind = ["wait-optional", "soft-optional", "soft-optional-never-ending", "oneof", "ordisabled", "mixed", "wait-optional-in-oneof", "optional-on-loop"][i % 8]
+    if kind == "optional-on-loop":
+        return build_loop_source(rng, i)
     oa, ob = rng.choice(OUTCOMES), rng.choice(OUTCOMES)
+    if kind == "wait-optional" and rng.random() < 0.25:
+        oa = "late-enabled"
     if kind == "wait-optional-in-oneof":
         # the interesting runs are those in which the option's hard source is there long before the optional one
         oa, ob = rng.choice(["success", "success", "success", "error", "crash"]), rng.choice(["success", "success", "success", "error"])
@@ -44,6 +48,7 @@ def build(i, check):
     A, B = src_step("A", oa), src_step("B", ob)
     steps = [A, B]
     outcome = {}
+    late_gates = []
     for n, o in (("A", oa), ("B", ob)):
         if o == "never-enabled":
             # the step's `enabled` condition refers to a value that is never produced: it can neither run nor be disabled
@@ -52,12 +57,23 @@ def build(i, check):
             steps.append(gate)
             outcome["G" + n] = rng.choice(["error", "crash", "deployfail"])
             (A if n == "A" else B).fields["enabled"] = Expr(Bin("==", Ref("G" + n, "outputs", "success", "tag"), Lit("x")))
+        elif o == "late-enabled":
+            # the step is enabled by a condition on another step that takes a while: the `enabled` value arrives while the step
+            # is already waiting for it; from then on it behaves like any successful step
+            from ..model import Bin, Lit
+            gate = gen.plugin_step("L" + n, Expr(In("tag")))
+            steps.append(gate)
+            late_gates.append("L" + n)
+            (A if n == "A" else B).fields["enabled"] = Expr(Bin("==", Ref("L" + n, "outputs", "success", "tag"), Lit("L%s(T1)" % n)))
         elif o not in ("success", "disabled"):
             outcome[n] = o
     triggers = []
     if kind == "wait-optional":
         t = Opt(rng.choice([Ref("A", "outputs", "success", "tag"), Ref("A", "outputs", "success", "tag"), Ref("A", "disabled", "output", "message"), Ref("A", "enabling", "resolved", "enabled"),
                             Ref("A", "crashed", "error", "output"), Ref("A", "deploy_failed", "error", "error"), Ref("A", "outputs", "error", "reason"), Ref("A", "outputs"), Ref("A", "outputs", "success")]), True)
+        if oa == "late-enabled" and rng.random() < 0.6:
+            # the step gets enabled late: its disabled output can then no longer occur, and a member waiting for it is absent
+            t = Opt(rng.choice([Ref("A", "disabled", "output", "message"), Ref("A", "disabled", "output")]), True)
     elif kind == "soft-optional":
         # also the whole stage / the whole output object: present means the source's value, never a placeholder
         t = Opt(rng.choice([Ref("A", "outputs", "success", "tag"), Ref("A", "outputs", "success", "tag"), Ref("A", "outputs"), Ref("A", "outputs", "success")]), False)
@@ -87,6 +103,8 @@ def build(i, check):
         outs["direct"] = {"v": tagged2(value), "b": Expr(Ref("B", "outputs", "success", "tag"))} if kind not in ("oneof", "mixed", "wait-optional-in-oneof") and ob == "success" and rng.random() < 0.5 else {"v": tagged2(value)}
     prog = Program(steps, outs, gen.BASE_INPUT)
     scripts = gen.make_scripts(steps, outcome)
+    for gname in late_gates:
+        scripts[gname]["deploys"] = [{}, {"delay_ms": rng.choice([15, 30])}]
     # both completion orders: hold A (or B) until the other finished
     order = rng.choice(["free", "A-last", "B-last"] if kind != "wait-optional-in-oneof" else ["free", "A-last", "A-last", "A-last", "B-last"])
     if order == "A-last" and oa not in NO_EXEC + ("hang",) and ob not in NO_EXEC:
@@ -110,6 +128,36 @@ def build(i, check):
         scripts["B"]["deploys"] = ds
         g["shape"] += " slow-output-log"
     return g, triggers
+
+
+def build_loop_source(rng, i):
+    """The source of the optional member is a loop step: its success data, its failed stage (impossible when every item
+    succeeds), its disabled output."""
+    sub = gen.sub_program("sub.yaml", 1)
+    lo = rng.choice(["success", "success", "item-fails", "disabled"])
+    L = Step("L", "foreach", sub=sub, items=Expr(In("items")), parallelism=rng.choice([1, 2]))
+    if lo == "disabled":
+        L.fields["enabled"] = Expr(Not(In("flag")))
+    wait = rng.random() < 0.7
+    t = Opt(rng.choice([Ref("L", "failed", "error"), Ref("L", "failed", "error"), Ref("L", "outputs", "success", "data"), Ref("L", "disabled", "output", "message"), Ref("L", "outputs", "success")]), wait)
+    where = rng.choice(["top", "map", "list"])
+    value = place(t, where, rng)
+    consumer_kind = rng.choice(["step-input", "workflow-output", "both"])
+    steps, outs = [L], {}
+    if consumer_kind in ("step-input", "both"):
+        steps.append(gen.plugin_step("C", Expr(In("tag")), extra_input={"a": value}))
+        outs["success"] = {"c": Expr(Ref("C", "outputs", "success"))}
+    if consumer_kind in ("workflow-output", "both"):
+        outs["direct"] = {"v": tagged2(value)}
+    rng.shuffle(steps)
+    prog = Program(steps, outs, gen.BASE_INPUT)
+    scripts = gen.make_scripts(steps, {})
+    n = rng.choice([1, 2, 3])
+    if lo == "item-fails":
+        scripts["sub_w0"]["exec_by_tag"] = {"i%d" % rng.randrange(n): {"outcome": rng.choice(["crash", "error"])}}
+    g = {"program": prog, "scripts": scripts, "input": {"tag": "T1", "flag": True, "items": [{"tag": "i%d" % k} for k in range(n)]},
+         "shape": "optional-on-loop/%s/%s/%s loop=%s n=%d" % ("wait" if wait else "soft", where, consumer_kind, lo, n), "outcome": {}, "kind": "optional-on-loop", "oa": lo, "ob": "-"}
+    return g, []
 
 
 def finish_seq(res, src, stage="outputs"):
@@ -183,8 +231,8 @@ def monitor(case, res, sem, g):
 def run(check):
     n = check.pick(360, 4800)
     check.rule = ("programs with one tagged member (!wait-optional, !soft-optional, !soft-optional on a never-ending source, !oneof over two steps, !ordisabled, and all of "
-                  "them in one object, !wait-optional inside an option of a !oneof) placed at top level / nested in a map / in a list / several per object, consumed by a step input, a workflow output or both; source "
-                  "outcomes drawn from {success, error, crash, deploy failure, disabled, alt, never enabled (condition on a value that is never produced)}; both completion orders forced by gates; oracles: reference presence/"
+                  "them in one object, !wait-optional inside an option of a !oneof, optional members whose source is a loop step) placed at top level / nested in a map / in a list / several per object, consumed by a step input, a workflow output or both; source "
+                  "outcomes drawn from {success, error, crash, deploy failure, disabled, alt, never enabled (condition on a value that is never produced), enabled late}; both completion orders forced by gates; oracles: reference presence/"
                   "absence and values (schedule-dependent presence of soft-optional is a set), wait-optional consumers start only after the source's terminal event, a "
                   "never-ending soft-optional source never delays the consumer, a present value was produced before the consumer started, one-of discriminator names "
                   "a produced alternative and carries its data; non-trivial/distinct = (tag kind, placement, consumer, source outcomes, order)")
